@@ -175,6 +175,15 @@ def post_oracle(cases, outs):
     bad = []
     for g, lst in groups.items():
         vals = set(v for _, v in lst)
+        if len(vals) > 1 and cases[lst[0][0]][0] == "cs_span":
+            # different blit primitives convert the coverage byte to a float in different ways (alpha / 255 against
+            # alpha * (1 / 255)): one level of rounding is not a dependence on the neighbours
+            try:
+                vv = [tuple(int(t) for t in v.split()) for v in vals]
+                if all(len(t) == 4 for t in vv) and max(max(t[k] for t in vv) - min(t[k] for t in vv) for k in range(4)) <= 1:
+                    continue
+            except ValueError:
+                pass
         if len(vals) > 1:
             # one entry per member: a listed finding covers a group only if the model reproduces every member of it
             for i, _ in lst:
